@@ -69,6 +69,8 @@ CONSTANTS Family,      \* "options" | "variables" | "environments" | "status" | 
                        \*   "parse-drops-max-restarts"  the loader knows the keyword but stores nothing for it
                        \*   "two-options-one-keyword"   the writer puts gracePeriod under the keyword of namespace
                        \*   "no-migration"              the writer forgets the global variables in [META]
+                       \*   "component-variable-equal-to-global-not-written"  the writer leaves out a component variable whose
+                       \*                               text equals the global one (wrong when the stage overrides it)
                        \*   "env-name-cut-at-hyphen"    the reader recovers an environment name from [ENV-<NAME>] by
                        \*                               splitting at '-' instead of dropping the 4-character prefix
 
@@ -162,10 +164,16 @@ OptionCases ==
 (* `cls` is the class of the text of the value (rendered by the driver): punct = spaces : = quotes, ref = a     *)
 (* reference to the global variable V, percent = a lone '%' (legal in FlowIR and in a legacy file).            *)
 VarClasses == {"punct", "plain", "empty", "ref", "percent"}
+(* layering of ONE name: in every scope the variable is absent or has one of two texts A / B, so that a value in one *)
+(* scope can be EQUAL to the value in another one (global = component # stage, ...): all 3^5 assignments.          *)
+(* `val` identifies the text of a value; in the other families it is the scope (all texts different).             *)
+LayeringCases == {{[scope |-> s, name |-> "v", cls |-> "punct", val |-> f[s]] : s \in {t \in VarScopes : f[t] # "absent"}} :
+                     f \in [VarScopes -> {"absent", "A", "B"}]}
 VariableCases ==
-         {{[scope |-> p[1], name |-> p[2], cls |-> "punct"] : p \in S} : S \in SUBSET (VarScopes \X VarNames)}
-    \cup {{[scope |-> s, name |-> "v", cls |-> k]} \cup (IF k = "ref" THEN {[scope |-> "global", name |-> "V", cls |-> "punct"]} ELSE {}) :
+         {{[scope |-> p[1], name |-> p[2], cls |-> "punct", val |-> p[1]] : p \in S} : S \in SUBSET (VarScopes \X VarNames)}
+    \cup {{[scope |-> s, name |-> "v", cls |-> k, val |-> s]} \cup (IF k = "ref" THEN {[scope |-> "global", name |-> "V", cls |-> "punct", val |-> "global"]} ELSE {}) :
               s \in VarScopes, k \in VarClasses \ {"punct"}}
+    \cup LayeringCases
 
 (* environments: each name absent / empty / one variable / two variables whose names differ by case *)
 EnvShapes == {"absent", "empty", "one", "two"}
@@ -202,14 +210,14 @@ NameCases ==
               S \in {T \in OneOrTwo(EnvNamePool) : \A m, n \in T : (EnvLower(m) = EnvLower(n)) => m = n}}
     \cup {[Neutral EXCEPT !.kind = "envvar", !.envs = {[name |-> "env1", vars |-> S, cls |-> "dollar"]}] : S \in OneOrTwo(EnvVarNamePool)}
     \cup {[Neutral EXCEPT !.kind = "comp", !.comps = S] : S \in OneOrTwo(CompNamePool)}
-    \cup UNION {{[Neutral EXCEPT !.kind = "var", !.vars = {[scope |-> f[n], name |-> n, cls |-> "punct"] : n \in S}] : f \in [S -> VarPlaces]} :
+    \cup UNION {{[Neutral EXCEPT !.kind = "var", !.vars = {[scope |-> f[n], name |-> n, cls |-> "punct", val |-> f[n]] : n \in S}] : f \in [S -> VarPlaces]} :
                    S \in OneOrTwo(VarNamePool)}
     \cup {[Neutral EXCEPT !.kind = "out", !.output = {[name |-> n, datain |-> "abs", desc |-> "plain", type |-> "csv", stages |-> "absent"] : n \in S}] :
               S \in OneOrTwo(OutNamePool)}
     \cup {[Neutral EXCEPT !.kind = "stages", !.nstages = ManyStages,
                           !.status = IF "status" \in W THEN ManyStagesStatus ELSE <<>>,
-                          !.vars = IF "vars" \in W THEN {[scope |-> "global", name |-> "v", cls |-> "punct"], [scope |-> LastScope, name |-> "v", cls |-> "punct"],
-                                                         [scope |-> "global", name |-> "V", cls |-> "punct"], [scope |-> "stage1", name |-> "V", cls |-> "punct"]} ELSE {},
+                          !.vars = IF "vars" \in W THEN {[scope |-> "global", name |-> "v", cls |-> "punct", val |-> "global"], [scope |-> LastScope, name |-> "v", cls |-> "punct", val |-> LastScope],
+                                                         [scope |-> "global", name |-> "V", cls |-> "punct", val |-> "global"], [scope |-> "stage1", name |-> "V", cls |-> "punct", val |-> "stage1"]} ELSE {},
                           !.output = IF "output" \in W THEN {[name |-> "Out", datain |-> "rel", desc |-> "plain", type |-> "csv", stages |-> "idxLast"]} ELSE {}] :
               W \in SUBSET {"status", "vars", "output"}}
 
@@ -235,7 +243,7 @@ RefVars(i) == {a \in i.opts : IsVarRef(a)}
 
 (* variable names visible in a scope and the value each one has there *)
 ScopeVars(i, scope) == {x.name : x \in {y \in i.vars : y.scope = scope}}
-VarVal(scope, name) == V("var", scope, 0)
+VarVal(i, scope, name) == V("var", (CHOOSE x \in i.vars : x.scope = scope /\ x.name = name).val, 0)
 
 (* explicit option lines of component c: the atoms, the backend (set on c only), and -- when the instance was made *)
 (* with all fields injected -- every option that has a non-null default                                           *)
@@ -259,19 +267,22 @@ KeyForPath(p) == IF p = BackendPath THEN BackendKey
 MetaLines(i, k) ==
     LET stageNames == ScopeVars(i, StageScope(k))
         globalNames == IF Fault = "no-migration" THEN {} ELSE ScopeVars(i, "global")
-    IN    {Line(StageFile(k), "META", n, VarVal(StageScope(k), n)) : n \in stageNames}
-     \cup {Line(StageFile(k), "META", n, VarVal("global", n)) : n \in globalNames \ stageNames}      \* M1: stage wins
+    IN    {Line(StageFile(k), "META", n, VarVal(i, StageScope(k), n)) : n \in stageNames}
+     \cup {Line(StageFile(k), "META", n, VarVal(i, "global", n)) : n \in globalNames \ stageNames}      \* M1: stage wins
      \cup (IF Fault = "no-migration" THEN {} ELSE {Line(StageFile(k), "META", "refVar", V("refvar", "", a.idx)) : a \in RefVars(i)})
 
 (* the section of a component is its name, in the file of its stage *)
 CompLines(i, c) ==
        {Line(StageFile(c.stage), c.name, KeyForPath(o.path), o.val) : o \in ExplicitOpts(i, c)}
-  \cup {Line(StageFile(c.stage), c.name, n, VarVal(CompScope(c.name), n)) : n \in ScopeVars(i, CompScope(c.name))}
+  \cup {Line(StageFile(c.stage), c.name, n, VarVal(i, CompScope(c.name), n)) :
+           n \in {m \in ScopeVars(i, CompScope(c.name)) :
+                    ~(/\ Fault = "component-variable-equal-to-global-not-written"
+                      /\ m \in ScopeVars(i, "global") /\ VarVal(i, "global", m) = VarVal(i, CompScope(c.name), m))}}
 
 (* variables.conf: written when missing, never read by an instance load (M2) *)
 VariablesConfLines(i) ==
-       {Line(VarFile, "GLOBAL", n, VarVal("global", n)) : n \in ScopeVars(i, "global")}
-  \cup UNION {{Line(VarFile, VariablesSection(k), n, VarVal(StageScope(k), n)) : n \in ScopeVars(i, StageScope(k))} : k \in AllStages}
+       {Line(VarFile, "GLOBAL", n, VarVal(i, "global", n)) : n \in ScopeVars(i, "global")}
+  \cup UNION {{Line(VarFile, VariablesSection(k), n, VarVal(i, StageScope(k), n)) : n \in ScopeVars(i, StageScope(k))} : k \in AllStages}
   \cup (IF i.layer = "global" THEN {Line(VarFile, "GLOBAL", KeyForPath(a.path), AtomVal(a)) : a \in i.opts} ELSE {})
   \cup (IF i.layer = "stage" THEN {Line(VarFile, VariablesSection(1), KeyForPath(a.path), AtomVal(a)) : a \in i.opts} ELSE {})
 
@@ -378,9 +389,9 @@ ViewOfLoaded(L) ==
 
 (* The expected view, computed from the instance WITHOUT going through files, sections or keywords *)
 ExpectedVars(i, c) ==
-    LET comp == {[name |-> n, val |-> VarVal(CompScope(c.name), n)] : n \in ScopeVars(i, CompScope(c.name))}
-        stage == {[name |-> n, val |-> VarVal(StageScope(c.stage), n)] : n \in ScopeVars(i, StageScope(c.stage))}
-        global ==      {[name |-> n, val |-> VarVal("global", n)] : n \in ScopeVars(i, "global")}
+    LET comp == {[name |-> n, val |-> VarVal(i, CompScope(c.name), n)] : n \in ScopeVars(i, CompScope(c.name))}
+        stage == {[name |-> n, val |-> VarVal(i, StageScope(c.stage), n)] : n \in ScopeVars(i, StageScope(c.stage))}
+        global ==      {[name |-> n, val |-> VarVal(i, "global", n)] : n \in ScopeVars(i, "global")}
                   \cup {[name |-> "refVar", val |-> V("refvar", "", a.idx)] : a \in RefVars(i)}
     IN Overlay(comp, Overlay(stage, global))
 
@@ -472,6 +483,8 @@ StageFilesSelfContained ==
 (* reachability witnesses (expected to FAIL): the families are not empty and the interesting shapes occur *)
 WitnessPairFolded == ~(phase = "loaded" /\ Cardinality(inst.opts) = 2 /\ inst.layer = "component")
 WitnessMigration == ~(phase = "loaded" /\ \E x \in inst.vars : x.scope = "global" /\ \E y \in inst.vars : y.scope = "stage1" /\ y.name = x.name)
+WitnessLayering == ~(phase = "loaded" /\ \E g, t, c \in inst.vars : /\ g.scope = "global" /\ t.scope = "stage1" /\ c.scope = "comp:c"
+                                                                       /\ g.name = t.name /\ t.name = c.name /\ g.val = c.val /\ g.val # t.val)
 WitnessPrefixNames == ~(phase = "loaded" /\ {e.name : e \in inst.envs} = {"gcc", "gcc-7"})
 WitnessManyStages == ~(phase = "loaded" /\ inst.nstages = ManyStages /\ Len(inst.status) = ManyStages)
 
